@@ -204,7 +204,9 @@ def generic_unit(ctx, src, base):
     return u
 
 
-MAYTHROW = ['fn', 'expect_generic']
+# (the expect_* macros expand to expect_generic(...) with __FILE__/__LINE__ of the place they are written: if the helper itself uses
+# one, the failure no longer carries the call site -- the macro text is included verbatim, so the verifier sees exactly that)
+MAYTHROW = ['fn', 'expect_generic'] + [m for m in MACROS if m != 'expect_raises']
 # no-throw in the model: allocation failure inside string_printf / what() / c_str() is not modelled (ASSUMPTIONS)
 NOTHROW = ['string_printf', 'what', 'c_str']
 # type-directed rewrites of the std::function / std::string uses (any unrewritten use fails the goto-cc compile gate)
